@@ -134,6 +134,7 @@ impl Typed for C26 {
             );
         }
         ctx.add("probe.thread_switches", res.switches);
+        ctx.add("fault.scheduler_preemption", res.switches);
         let stale_actor = case.actors.iter().any(|(u, _)| Some(u % 3) != *last_chosen.lock().unwrap());
         if res.switches >= 2 && stale_actor {
             ctx.nontrivial();
